@@ -120,6 +120,14 @@ class SiteModel:
 
     def pending(self):
         """set of categories (without 'update', which is text-level) pending on this site"""
+        try:
+            return self._pending()
+        except Exception:
+            # values that cannot be compared with each other (out of the statement's scope): the site is exempt
+            self.raised = True
+            return set()
+
+    def _pending(self):
         if self.kind is None:
             return set()
         if self.src is MISSING:
@@ -152,11 +160,18 @@ class SiteModel:
                 if c.src is MISSING:
                     out.add("create")
                 else:
-                    out |= c.pending()
+                    out |= c._pending()
         return out
 
     def after(self, approved):
         """value in the source after a session that approved `approved` (MISSING stays MISSING unless created)"""
+        try:
+            return self._after(approved)
+        except Exception:
+            self.raised = True
+            raise
+
+    def _after(self, approved):
         if self.kind is None:
             return self.src
         if self.src is MISSING:
@@ -168,7 +183,7 @@ class SiteModel:
                 return self.obs[0]
             return self.src
         if self.kind in ("le", "ge"):
-            p = self.pending()
+            p = self._pending()
             if ("fix" in p and "fix" in approved) or ("trim" in p and "trim" in approved):
                 return self.aggregate()
             return self.src
@@ -186,7 +201,7 @@ class SiteModel:
             for k, v in self.src.items():
                 if contains(self.child_keys, k):
                     c = self.children_list()[[i for i, kk in enumerate(self.child_keys) if meq(kk, k)][0]]
-                    out[k] = c.after(approved) if c.kind is not None else v
+                    out[k] = c._after(approved) if c.kind is not None else v
                 elif "trim" not in approved:
                     out[k] = v
             if "create" in approved:
